@@ -70,12 +70,14 @@ def ClipLineSpec (line : Contours → Contours → Contours) : Prop :=
 
 def pointAt (a b : P) (t : Rat) : P := ⟨a.x + t * (b.x - a.x), a.y + t * (b.y - a.y)⟩
 
-/-- parameter on `ab` of its proper crossing with the edge `cd` -/
+/-- parameter in `(0,1)` at which the segment `ab` crosses the LINE through the edge `cd` (every
+point of `ab` on the edge is among these; the extra ones only refine the sub-intervals) -/
 def crossParam (a b c d : P) : Option Rat :=
-  if properCross a b c d then
-    let f0 := orient c d a; let f1 := orient c d b
-    some (f0 / (f0 - f1))
-  else none
+  let f0 := orient c d a; let f1 := orient c d b
+  if f0 = f1 then none
+  else
+    let t := f0 / (f0 - f1)
+    if 0 < t ∧ t < 1 then some t else none
 
 def crossParams (cs : Contours) (a b : P) : List Rat :=
   cs.flatMap fun r => (edges r).filterMap fun e => crossParam a b e.1 e.2
@@ -96,15 +98,36 @@ def oracleSeg (cs : Contours) (a b : P) : List (Rat × Rat) :=
   ((subIntervals cs a b).filter fun (t0, t1, f) =>
       f && decide (0 ≤ t0) && decide (t0 ≤ t1) && decide (t1 ≤ 1)).map fun (t0, t1, _) => (t0, t1)
 
-/-- maximal inside chains of one path: consecutive inside sub-intervals are joined -/
+/-- join `x` with the first interval of `acc` when they are adjacent -/
+def mergeStep (x : Rat × Rat) (acc : List (Rat × Rat)) : List (Rat × Rat) :=
+  match acc with
+  | (c, d) :: r => if x.2 = c then (x.1, d) :: r else x :: acc
+  | [] => [x]
+
+/-- adjacent intervals merged (in parameter space) -/
+def mergeAdj (l : List (Rat × Rat)) : List (Rat × Rat) := l.foldr mergeStep []
+
+/-- the maximal inside intervals of segment `ab` -/
+def segIvs (cs : Contours) (a b : P) : List (Rat × Rat) := mergeAdj (oracleSeg cs a b)
+
+/-- the oracle's answer as segments: for every segment of `L` its maximal inside intervals -/
+def oracleSegments (cs : Contours) (ls : List Path) : List (P × P) :=
+  ls.flatMap fun l => (pairs l).flatMap fun e =>
+    (segIvs cs e.1 e.2).map fun iv => (pointAt e.1 e.2 iv.1, pointAt e.1 e.2 iv.2)
+
+/-- maximal inside chains of one path: an interval that starts at parameter 0 continues the chain
+that the previous segment left open at parameter 1 -/
 def pathChains (cs : Contours) (l : Path) : List Path :=
-  let ivs : List (P × P × Bool) := (pairs l).flatMap fun (a, b) =>
-    (subIntervals cs a b).map fun (t0, t1, f) => (pointAt a b t0, pointAt a b t1, f)
-  let (done, cur) := ivs.foldl (fun (acc : List Path × Path) (iv : P × P × Bool) =>
-      let (done, cur) := acc
-      let (p0, p1, f) := iv
-      if f then (if cur.isEmpty then (done, [p0, p1]) else (done, cur ++ [p1]))
-      else (if cur.isEmpty then (done, []) else (done ++ [cur], []))) ([], [])
+  let flush (st : List Path × Path) : List Path × Path := if st.2.isEmpty then st else (st.1 ++ [st.2], [])
+  let (done, cur) := (pairs l).foldl (fun (st : List Path × Path) (e : P × P) =>
+      let ivs := segIvs cs e.1 e.2
+      let st := match ivs with
+        | (t0, _) :: _ => if t0 = 0 then st else flush st
+        | [] => flush st
+      ivs.foldl (fun (st : List Path × Path) (iv : Rat × Rat) =>
+        let p0 := pointAt e.1 e.2 iv.1; let p1 := pointAt e.1 e.2 iv.2
+        let st := if iv.1 = 0 ∧ !st.2.isEmpty then (st.1, st.2 ++ [p1]) else ((flush st).1, [p0, p1])
+        if iv.2 = 1 then st else flush st) st) ([], [])
   if cur.isEmpty then done else done ++ [cur]
 
 def oracleChains (cs : Contours) (ls : List Path) : List Path := ls.flatMap (pathChains cs)
